@@ -279,8 +279,61 @@ func c10Handle(c *Ctx, s Service, limField int, allow *ssa.Function) {
 			c.Violate("token-before-reply", k, p.InstrPos(s), "after this reply another reply ("+bad+") is reachable without a new limiter token: one request datagram can yield several responses")
 			continue
 		}
+		// a reply made through a helper of the repository counts as ONE datagram only if the helper writes once
+		udpReach := InstrReach(h, func(b *ssa.BasicBlock, i int) bool { return enabling[en{b, i}] != `Network()!="udp"` }, nil)
+		if why := helperWritesRepeatedly(s, t, 3); why != "" && udpReach(s) {
+			c.Violate("token-before-reply", k, p.InstrPos(s), "this reply is made by a helper that can write to the connection more than once for the one token taken here ("+why+"): the sender controls how many response datagrams a single admitted request produces")
+			continue
+		}
 		c.Ok("token-before-reply", k, p.InstrPos(s), "guarded by "+fmt.Sprint(len(enabling))+" enabling edge(s); no second reply without a new token")
 	}
+}
+
+// helperWritesRepeatedly: the sink is a call of an in-repo function receiving the connection whose own writes to it
+// sit in a loop or follow one another on a path; returns a description, or "".
+func helperWritesRepeatedly(sink ssa.Instruction, tainted map[ssa.Value]bool, depth int) string {
+	call, ok := sink.(ssa.CallInstruction)
+	if !ok || depth == 0 {
+		return ""
+	}
+	cc := call.Common()
+	if cc.IsInvoke() {
+		return ""
+	}
+	callee := cc.StaticCallee()
+	if callee == nil {
+		if mc, ok := cc.Value.(*ssa.MakeClosure); ok {
+			callee, _ = mc.Fn.(*ssa.Function)
+		}
+	}
+	if callee == nil || !InRepo(callee) || callee.Blocks == nil {
+		return ""
+	}
+	var seeds []ssa.Value
+	for i, a := range cc.Args {
+		if tainted[a] && i < len(callee.Params) {
+			seeds = append(seeds, callee.Params[i])
+		}
+	}
+	if len(seeds) == 0 {
+		return ""
+	}
+	inner, t2 := connWriteSinks(callee, seeds, map[string]bool{}, depth)
+	for _, s := range inner {
+		if InLoop(s.Block()) {
+			return sinkName(s) + " inside a loop of " + FuncShort(callee)
+		}
+		r := InstrReachFrom(callee, s, nil, nil)
+		for _, s2 := range inner {
+			if s2 != s && r(s2) {
+				return sinkName(s) + " followed by " + sinkName(s2) + " in " + FuncShort(callee)
+			}
+		}
+		if why := helperWritesRepeatedly(s, t2, depth-1); why != "" {
+			return why
+		}
+	}
+	return ""
 }
 
 func sinkName(in ssa.Instruction) string {
